@@ -31,6 +31,7 @@ class Extracted:
         self.by_dim: dict[int, list] = {}  # dim -> list[(Expr|None, node, note)]
         self.raises: set = set()
         self.problems: list = []
+        self.fills: list = []  # (call, shape-ok, parameter) for constant results np.full(x.shape, c) …
 
 
 def _const_fill(call: ast.Call, resolve):
@@ -45,7 +46,21 @@ def _const_fill(call: ast.Call, resolve):
     return None
 
 
-def _leaf_values(model: Model, mod: ModuleInfo, body, param, local_funcs, out, problems):
+def _fill_shape_ok(call: ast.Call, resolve, par):
+    """does the constant array have the shape of the argument ``par``?"""
+    name = resolve(dotted(call.func)) or ""
+    u = ast.unparse
+    shapes = (f"{par}.shape", f"np.shape({par})", f"numpy.shape({par})")
+    if name.endswith("numpy.full"):
+        return u(call.args[0]) in shapes
+    if name.endswith("numpy.broadcast_to"):
+        return u(call.args[1]) in shapes
+    if name.endswith("numpy.full_like"):
+        return u(call.args[0]) == par
+    return False
+
+
+def _leaf_values(model: Model, mod: ModuleInfo, body, param, local_funcs, out, problems, fills=None):
     """Collect value expressions 'returned' by a block: Return statements, nested
     defs' returns (with their own first parameter) and lambda bodies."""
     resolve = lambda s: model.resolve(mod, s) if s else s
@@ -58,6 +73,8 @@ def _leaf_values(model: Model, mod: ModuleInfo, body, param, local_funcs, out, p
         if isinstance(v, ast.Call):
             c = _const_fill(v, resolve)
             if c is not None:
+                if fills is not None and par:
+                    fills.append((v, _fill_shape_ok(v, resolve, par), par))
                 conv_value(c, par)
                 return
             fn = dotted(v.func)
@@ -109,7 +126,7 @@ def extract(model: Model, fi: FuncInfo) -> Extracted:
                 k = _dim_test(s.test, dim_names)
                 if k is not None:
                     vals: list = []
-                    _leaf_values(model, mod, s.body, param, local_defs(s.body), vals, ex.problems)
+                    _leaf_values(model, mod, s.body, param, local_defs(s.body), vals, ex.problems, ex.fills)
                     if vals:
                         ex.by_dim.setdefault(k, []).extend(vals)
                     elif any(isinstance(x, ast.Raise) for x in s.body):
